@@ -241,7 +241,7 @@ def drive_random_trees(mon: Monitor, rng: random.Random, n: int) -> None:
     mon.case = None
 
 
-def run_dask(mon: Monitor, cfg, scheduler: str, seed: int, workers: int = 4) -> None:
+def run_dask(mon: Monitor, cfg, scheduler: str, seed: int, workers: int = 4, label: str = "") -> None:
     import dask
     import dask.bag as db
 
@@ -274,7 +274,7 @@ def run_dask(mon: Monitor, cfg, scheduler: str, seed: int, workers: int = 4) -> 
         return out
 
     res, exc = call(go)
-    ok = judge_history(mon, w, stream, hdr, ftr, seen, res, exc, {**cfg, "scheduler": scheduler, "seed": seed, "workers": workers}, f"dask|{scheduler}", hsig("k", repr(cfg), scheduler, order_sig))
+    ok = judge_history(mon, w, stream, hdr, ftr, seen, res, exc, {**cfg, "scheduler": scheduler, "seed": seed, "workers": workers}, label or f"dask|{scheduler}", hsig("k", repr(cfg), scheduler, order_sig))
     if order_sig is not None:
         _orders.add((scheduler, order_sig))
 
@@ -292,6 +292,16 @@ def drive_dask(mon: Monitor, rng: random.Random, n: int) -> None:
         seed = r.randint(0, 10**6)
         mon.case = {"kind": "dask", "cfg": cfg, "scheduler": sched, "seed": seed}
         run_dask(mon, cfg, sched, seed, workers=r.choice([2, 3, 4, 8]))
+    # sub-streams with more partitions than dask's defaults group one-to-one (from_sequence packs items beyond 100): a tiled COG level easily has hundreds
+    for i, nparts in enumerate([101, 128, 250][: (2 if n < 200 else 3)] * (1 if n < 200 else 4)):
+        r = random.Random(rng.getrandbits(48))
+        m = r.choice([8, 64])
+        sizes = [0, 1, m - 1, m, m + 1, 2 * m]
+        cfg = dict(m=m, wpc=r.choice([1, 2]), spill=r.choice([m, 10 * m, 10**9]), hdr=r.choice([None, m]), ftr=r.choice([None, 1]),
+                   spec=[[[r.choice(sizes)] for _ in range(nparts)]] + ([[[r.choice(sizes)] for _ in range(3)]] if r.random() < 0.5 else []), min_part=1, max_part=10_000)
+        seed = r.randint(0, 10**6)
+        mon.case = {"kind": "dask", "cfg": cfg, "scheduler": "sync", "seed": seed}
+        run_dask(mon, cfg, "sync", seed, label="dask|sync|many-partitions")
     mon.case = None
     mon.obs["distinct_dask_orders_sync"] = len({o for s, o in _orders if s == "sync"})
     mon.obs["distinct_dask_orders_threads"] = len({o for s, o in _orders if s == "threads"})
@@ -321,7 +331,7 @@ def run(mon: Monitor, tier: str, seed: int, shard: int, nshards: int) -> None:
         drive_dask(mon, rng, 90 if q else 400)
         mon.exhaustive = True
         mon.notes["exhaustive_domain"] = f"all binary merge trees over adjacent partitions for every generated configuration with <= {4 if q else 5} partitions per sub-stream"
-        for pt, n in [("history", 2000), ("history|direct|enumerated", 800), ("history|direct|random-tree", 800), ("history|dask|sync", 30), ("history|dask|threads", 15), ("history|direct|pinned", 4),
+        for pt, n in [("history", 2000), ("history|direct|enumerated", 800), ("history|direct|random-tree", 800), ("history|dask|sync", 30), ("history|dask|threads", 15), ("history|dask|sync|many-partitions", 2), ("history|direct|pinned", 4),
                       ("MPUChunk.invariant", 5000), ("MPUChunk.invariant|merge", 500), ("MPUChunk.invariant|maybe_write", 500), ("MPUChunk.invariant|flush_rhs", 100)]:
             mon.floor(pt, n)
     finally:
